@@ -51,9 +51,10 @@ package corebgp
 //@   ensures [slot_empty] p.fsms[i] == nil && p.fsmState[i] == 0
 //@   ensures [joined] old(p.fsms[i]) != nil ==> !fsmRunning(old(p.fsms[i]))
 //@   ensures [other_untouched] p.fsms[1-i] == old(p.fsms[1-i]) && p.fsmState[1-i] == old(p.fsmState[1-i]) && (p.fsms[1-i] != nil ==> fsmRunning(p.fsms[1-i]) && !chanClosed(p.fsms[1-i].closeCh))
+//@   ensures [done_untouched] chanClosed(p.doneCh) == old(chanClosed(p.doneCh))
 
 //@ func peer.sendTransitionToFSM
-//@   requires [inv] peerInv(p) && (i == 0 || i == 1) && p.fsms[i] != nil && t.to <= 6
+//@   requires [inv] peerInv(p) && (i == 0 || i == 1) && p.fsms[i] != nil && t.to <= 6 && t.from <= 6 && (t.to == 5 ==> t.from == 4)
 //@   requires [one_established] t.to == 6 ==> p.fsmState[1-i] != 6
 //@   ghostvar sent bool = false
 //@   at select#0 case 1 set sent = true
@@ -62,9 +63,9 @@ package corebgp
 //@   ensures [state_follows_echo] p.fsmState[i] == (sent ? t.to : old(p.fsmState[i]))
 
 //@ func peer.enableFSM
-//@   requires [inv] peerInv(p) && (i == 0 || i == 1) && !p.inHoldDown
+//@   requires [inv] peerInvCore(p) && (i == 0 || i == 1)
 //@   modifies p.fsms[i], p.fsmState[i]
-//@   ensures [inv] peerInv(p)
+//@   ensures [inv] peerInvCore(p)
 //@   ensures [passive_never_dials] i == 0 && p.options.passive ==> p.fsms[0] == nil
 //@   ensures [started] !(i == 0 && p.options.passive) && old(p.fsms[i]) == nil ==> p.fsms[i] != nil && fresh(p.fsms[i]) && p.fsms[i].conn == conn && fsmRunning(p.fsms[i]) && p.fsmState[i] == 0
 //@   ensures [existing_kept] old(p.fsms[i]) != nil ==> p.fsms[i] == old(p.fsms[i]) && p.fsmState[i] == old(p.fsmState[i])
@@ -79,6 +80,7 @@ package corebgp
 //@   ensures [inv] peerInv(p)
 //@   ensures [damped_drops_both] damping ==> p.fsms[0] == nil && p.fsms[1] == nil && p.inHoldDown && (old(p.fsms[0]) != nil ==> !fsmRunning(old(p.fsms[0]))) && (old(p.fsms[1]) != nil ==> !fsmRunning(old(p.fsms[1])))
 //@   ensures [damped_timer] damping ==> timerOn(p.startupDelayTimer) && timerDur(p.startupDelayTimer) == p.startupDelay && 60000000000 <= p.startupDelay && p.startupDelay <= 300000000000 && (old(p.startupDelay) == 0 ==> p.startupDelay == 60000000000) && p.startupDelay <= max(2 * old(p.startupDelay), 60000000000)
+//@   ensures [done_untouched] chanClosed(p.doneCh) == old(chanClosed(p.doneCh))
 //@   ensures [no_damp_otherwise] !damping ==> p.fsms[0] == old(p.fsms[0]) && p.fsms[1] == old(p.fsms[1]) && p.fsmState[0] == old(p.fsmState[0]) && p.fsmState[1] == old(p.fsmState[1]) && p.inHoldDown == old(p.inHoldDown) && p.startupDelay == old(p.startupDelay) && p.startupDelayTimer == old(p.startupDelayTimer) && timerOn(p.startupDelayTimer) == old(timerOn(p.startupDelayTimer))
 
 // ---- state transitions: one Established session (C01), collision (C07), resume dialling (C11) ----
@@ -96,6 +98,7 @@ package corebgp
 //@   at call sendTransitionToFSM#0 assert [other_stopped_before_established] p.fsms[1-i] == nil && p.fsmState[1-i] == 0 && (old(p.fsms[1-i]) != nil ==> !fsmRunning(old(p.fsms[1-i])))
 //@   modifies p.fsms[0], p.fsms[1], p.fsmState[0], p.fsmState[1], fsmRunning, chanClosed, onceDone
 //@   ensures [inv] peerInv(p)
+//@   ensures [done_untouched] chanClosed(p.doneCh) == old(chanClosed(p.doneCh))
 //@   ensures [established_is_exclusive] t.to == 6 ==> p.fsms[1-i] == nil && p.fsmState[1-i] == 0 && (old(p.fsms[1-i]) != nil ==> !fsmRunning(old(p.fsms[1-i]))) && p.fsms[i] == old(p.fsms[i])
 //@   ensures [inbound_down_resumes_dialling] t.to != 6 && i == 1 && t.to < t.from ==> p.fsms[1] == nil && !fsmRunning(old(p.fsms[1])) && (!p.options.passive ==> p.fsms[0] != nil && fsmRunning(p.fsms[0])) && (p.options.passive ==> p.fsms[0] == nil)
 //@   ensures [requester_refused_when_other_established] t.to == 5 && !(i == 1 && t.to < t.from) && old(p.fsmState[1-i]) == 6 ==> p.fsms[i] == nil && p.fsms[1-i] == old(p.fsms[1-i]) && p.fsmState[1-i] == 6
@@ -103,3 +106,41 @@ package corebgp
 //@   ensures [collision_winner_requester_kills_other] collision && requesterWins && killed ==> p.fsms[1-i] == nil && !fsmRunning(old(p.fsms[1-i])) && p.fsms[i] == old(p.fsms[i]) && fsmRunning(p.fsms[i]) && !chanClosed(p.fsms[i].closeCh)
 //@   ensures [collision_winner_never_refused_by_manager] collision && requesterWins && !gotOther && !killed && !closing ==> p.fsms[i] == old(p.fsms[i]) && p.fsms[i] != nil
 //@   ensures [collision_closing] collision && requesterWins && closing ==> p.fsms[0] == old(p.fsms[0]) && p.fsms[1] == old(p.fsms[1]) && p.fsmState[0] == old(p.fsmState[0]) && p.fsmState[1] == old(p.fsmState[1])
+
+// ---- the manager loop ----
+// Rely (composition step, DESIGN section 5): a transition or error received from
+// slot i was sent by the FSM registered in that slot, so the slot is not empty.
+//@ func peer.run
+//@   requires [inv] peerInv(p) && !chanClosed(p.doneCh)
+//@   loop#0 invariant [inv] peerInv(p) && !chanClosed(p.doneCh)
+//@   at select#0 case 4 assume p.fsms[1] != nil
+//@   at select#0 case 5 assume p.fsms[0] != nil
+//@   at call enableFSM#0 assert [timer_arm_enables_outbound] arg1 == 0 && arg2 == nil
+//@   at call enableFSM#1 assert [inbound_accepted_only_when_free] arg1 == 1 && !p.inHoldDown && p.fsms[1] == nil && p.fsmState[0] != 6
+//@   at call Close#0 assert [refused_in_hold_down] p.inHoldDown
+//@   at call Close#1 assert [refused_when_busy] !p.inHoldDown && (p.fsms[1] != nil || p.fsmState[0] == 6)
+//@   modifies p.fsms[0], p.fsms[1], p.fsmState[0], p.fsmState[1], p.startupDelay, p.lastProtoError, p.startupDelayTimer, p.inHoldDown, fsmRunning, chanClosed, onceDone, timerOn, timerMayHold, connClosed
+//@   ensures [all_fsms_joined] p.fsms[0] == nil && p.fsms[1] == nil
+//@   ensures [timer_stopped] !timerOn(p.startupDelayTimer)
+//@   ensures [done_signalled] chanClosed(p.doneCh)
+
+//@ func peer.start
+//@   requires [inv] peerInv(p) && !p.inHoldDown && !peerRunning(p)
+//@   at call run#0 assert [manager_starts_with_invariant] peerInv(p)
+//@   at call run#0 set peerRunning(p) = true
+//@   modifies p.fsms[0], p.fsmState[0], peerRunning(p)
+//@   ensures [running] peerRunning(p)
+
+//@ func peer.stop
+//@   requires p.closeCh != nil && p.doneCh != nil && (chanClosed(p.closeCh) == onceDone(p.closeOnce))
+//@   modifies peerRunning(p), chanClosed(p.closeCh), onceDone(p.closeOnce)
+//@   ensures [joined] !peerRunning(p)
+//@   ensures [close_requested] chanClosed(p.closeCh)
+
+//@ func peer.incomingConnection
+//@   requires p.closeCh != nil && p.inConnCh != nil && conn != nil
+//@   ghostvar handed bool = false
+//@   at select#0 case 1 set handed = true
+//@   modifies connClosed(conn)
+//@   ensures [handed_or_closed] handed || connClosed(conn)
+//@   ensures [not_closed_when_handed] handed ==> connClosed(conn) == old(connClosed(conn))
